@@ -90,6 +90,11 @@ STRENGTHENED = {
     "C16-w4m2": "the C16 oracle evaluates the documented FORWARD rule link by link instead of asking `neighbors()`",
     "C20-w4m2": "reproducibility is compared on the STRUCTURE of two seeded results while the first is kept alive; the RNG tap passes other generator functions through (and then skips the model replay) instead of failing; the statement is judged directly on every seeded run",
     "C20-w3m1": "a two-ended link class whose constructor names its ends differently",
+    "C19-w5m1": "missed at first (the harness keeps every universe alive in its pool); C19 now also runs histories in which the caller keeps "
+                "only the LAW SETS (`L.applies_to = Universe()`, `Universe(laws=L)` unbound) and reads every assignment back through them",
+    "C20-w5m2": "missed at first; the pool's `UU` link class now has a constructor that REQUIRES its two ends (as documented: `lnktype(v1, v2)`)",
+    "C18-w5m2": "missed at first; C18 now also runs histories with an ALIAS class (a singleton class whose `__new__` forwards to another singleton class) "
+                "and judges the statement for the forwarded-to class",
 }
 _EQ = ("needs graph objects (vertices / law sets) that override `__eq__`/`__hash__` so that distinct objects compare equal; the unchanged "
        "code itself uses == membership throughout, so the identity reading of the properties presupposes default equality (§6, §11.1)")
@@ -102,9 +107,6 @@ MISSED_NOTE = {
     "C07-w5m2": "missed by the QUICK tier: needs a pending DFS stack above 65536 entries; the THOROUGH tier of C06 / C07 now builds the complete "
                 "graph on 262 vertices (the model needs 95 s for it) on which the changed code lists a different order (verified by hand)",
     "C11-w5m1": "known gap: needs an un-pickled copy, the original garbage-collected, and the allocator re-using one of its addresses for a new link",
-    "C18-w5m2": "known gap: needs a singleton class whose `__new__` returns ANOTHER live singleton (an alias class)",
-    "C19-w5m1": "known gap: needs a universe that only its law set refers to (the harness keeps every universe alive in its pool)",
-    "C20-w5m2": "known gap: needs an edge type that is itself a semi-singleton, or whose constructor needs its ends",
 }
 OUT_OF_SCOPE = {
     "C05-w5m1": _OV, "C06-w5m2": _OV, "C19-w5m2": _OV,
